@@ -256,8 +256,8 @@ def run_shard(spec):
 def check_floors(counters, evaluations, tier):
     msgs = []
     for key, frac in (('overlapping-requests', 0.15),
-                      ('stubborn-worker', 0.2), ('probe-while-busy', 0.3),
-                      ('real-periodic-callback', 0.3)):
+                      ('stubborn-worker', 0.15), ('probe-while-busy', 0.3),
+                      ('real-periodic-callback', 0.18)):
         if counters.get(key, 0) < frac * evaluations:
             msgs.append("%s in only %d of %d cases" % (
                 key, counters.get(key, 0), evaluations))
